@@ -145,7 +145,27 @@ order under their attribute names (a function's `__name__` is its attribute name
 structure Class where
   ifaces : Option (List Iface)
   attrs : List (Str × Func)
+  /-- the `DBusProperty` attributes of `cls.__dict__`: (number of FUNCTIONS that precede the attribute in
+  the class body, name of the interface the property is bound to).  A property implements no member,
+  but `_cacheInterfaces` creates the per-class cache entry of its interface (`get_ic(obj.interface)`),
+  which fixes the position of that interface in the dict order of the cache. -/
+  propKeys : List (Nat × Str) := []
   deriving DecidableEq, Repr
+
+/-- One attribute of a class body that `_cacheInterfaces` looks at. -/
+inductive BodyEntry where
+  | func (a : Str × Func)
+  | prop (iface : Str)
+  deriving DecidableEq, Repr
+
+/-- Functions and properties merged back into class-body order; `n` = number of functions already passed. -/
+def mergeBody : List (Str × Func) → List (Nat × Str) → Nat → List BodyEntry
+  | [], props, n => (props.filter fun p => p.1 ≥ n).map fun p => .prop p.2
+  | a :: t, props, n =>
+    ((props.filter fun p => p.1 = n).map fun p => BodyEntry.prop p.2) ++ .func a :: mergeBody t props (n + 1)
+
+/-- `cls.__dict__.items()` restricted to what `_cacheInterfaces` acts on, in definition order. -/
+def Class.body (c : Class) : List BodyEntry := mergeBody c.attrs c.propKeys 0
 
 /-- An exported object: its class chain in `__mro__` order. -/
 structure Obj where
@@ -302,8 +322,19 @@ def cacheStep (cache : Cache) (a : Str × Func) : Cache :=
   | some (i, m) => cacheAdd cache i m a.1
   | none => cache
 
+/-- The `DBusProperty` branch of `_cacheInterfaces`, as far as methods are concerned:
+`get_ic(obj.interface)` creates the (empty) cache entry of the interface if there is none yet. -/
+def cacheTouch (cache : Cache) (i : Str) : Cache :=
+  match dictGet cache i with
+  | some _ => cache
+  | none => dictSet cache i []
+
+def bodyStep (cache : Cache) : BodyEntry → Cache
+  | .func a => cacheStep cache a
+  | .prop i => cacheTouch cache i
+
 def cacheOfClass (c : Class) : Cache :=
-  c.attrs.foldl cacheStep []
+  c.body.foldl bodyStep []
 
 /-- `_searchCache(interfaceName, 'methods', key)`: attribute name of the function found. -/
 def searchCache (o : Obj) (iname key : Str) : Option Str :=
